@@ -15,7 +15,7 @@ Ltac unflags :=
     GUARD_UNINITIALIZED, GUARD_CONNECTING, GUARD_CONNECTED, GUARD_CLOSING, GUARD_CLOSED,
     REGISTRY_REMOVE_ON_UNINITIALIZED, REGISTRY_REMOVE_ON_CONNECTING, REGISTRY_REMOVE_ON_CONNECTED, REGISTRY_REMOVE_ON_CLOSING,
     REGISTRY_REMOVE_ON_CLOSED, ACCEPT_CONNECTED_BEFORE_HANDLER, CONNECT_CLOSES_ON_CANCEL, CONNECT_RECHECKS_STATE,
-    DISCONNECT_CLOSED_IN_FINALLY, READER_RECHECKS_CLOSING, SEND_SKIPS_WHEN_CLOSING, SEND_FAILURE_DISCONNECT_DETACHED,
+    CONNECT_FAILURE_CATCHES_ALL, DISCONNECT_CLOSED_IN_FINALLY, READER_RECHECKS_CLOSING, SEND_SKIPS_WHEN_CLOSING, SEND_FAILURE_DISCONNECT_DETACHED,
     ATTEMPT_CLOSES_ON_CANCEL in *.
 
 Ltac destr :=
